@@ -90,8 +90,9 @@ M = {
                            'VALUE refuses exponent notation'),
     'c12-ge-for-gt': ('C12', [(CTX, "            case '>':\n                return left_operand > right_operand", "            case '>':\n                return left_operand >= right_operand")],
                       '> behaves as >= (comparison operators and criteria share _by_operator)'),
-    'c12-skip-size-check': ('C12', [(CTX, "                if len(sum_range) != len(i):\n                    raise self.ExcelInPythonException('Invalid sumifs range size')", "                if False:\n                    raise self.ExcelInPythonException('Invalid sumifs range size')")],
-                            'SUMIFS does not check that the ranges have one size'),
+    'c12-skip-size-check': ('C12', [(CTX, "                if len(sum_range) != len(i):\n                    raise self.ExcelInPythonException('Invalid sumifs range size')", "                if False:\n                    raise self.ExcelInPythonException('Invalid sumifs range size')"),
+                                    (CTX, "                if sum_range_shape and self._area_shape(i) and self._area_shape(i) != sum_range_shape:", "                if False:")],
+                            'SUMIFS does not check that the ranges have one size (both layers removed: the cell count and the shape check of D105 - the count check alone is an equivalent mutant now)'),
     'c12-wildcard-prefix': ('C12', [(CTX, "hit = re.fullmatch(self._wildcard_pattern(value), cell, re.IGNORECASE | re.DOTALL) is not None", "hit = re.match(self._wildcard_pattern(value), cell, re.IGNORECASE | re.DOTALL) is not None")],
                             'text criteria match a prefix of the cell instead of the whole cell'),
     'c12-case-sensitive': ('C12', [(CTX, "hit = re.fullmatch(self._wildcard_pattern(value), cell, re.IGNORECASE | re.DOTALL) is not None", "hit = re.fullmatch(self._wildcard_pattern(value), cell, re.DOTALL) is not None")],
